@@ -127,7 +127,7 @@ def replay_valid(k, c, full, mods, slot=0):
                     lambda: M.joint_counts(a, b, nx + 256, ny), expw)
     for ai in range(X.shape[1]):
         for bi in range(Y.shape[1]):
-            if not full and (k + ai + bi) % 4 != slot:       # bincount2d is serial: one slot per pair
+            if not full and (k + ai + bi) % 4 != slot % 4:   # (one slot per pair; slot 4 = the confined process)
                 continue
             for dt in (D8 if full else [D8[(k // 4 + ai + 2 * bi) % 8]]):
                 lo = LAYOUTS[(k // 4 + ai + bi) % 4]
